@@ -89,7 +89,10 @@ func runC11(c *Ctx) {
 	c.OnlyCalledFrom(r2, "createMetaSession", `^router\.\(\*realm\)\.createMetaSession$`, `^router\.\(\*realm\)\.setupMetaProcedures$`, 1)
 	c.OnlyCalledFrom(r2, "setupMetaProcedures", `^router\.\(\*realm\)\.setupMetaProcedures$`, `^router\.newRealm$`, 1)
 	c.Has(r2, cms, "dealer of this realm publishes through this realm's meta peer", `^call:router\.\(\*dealer\)\.setMetaPeer\(%r\.dealer, call:transport\.LinkedPeers\(\)#0\)$`, 1)
-	c.R.Floor(r2, 16)
+	// a realm that could not be created never enters the realm table (a nil entry would crash the router, and with it
+	// every other realm, on the next HELLO, RemoveRealm or Close naming it)
+	c.Guard(r2, ar, "realm entered in the table", `^mapupdate:%r\.realms\[%config\.URI\]=`, 1, clause("newRealm succeeded", T(`^\(call:router\.newRealm\(.*\)#1 == nil\)$`)))
+	c.R.Floor(r2, 17)
 
 	const r3 = "C11.R3 no package-level routing state"
 	nGlob, nWrites := 0, 0
